@@ -1,5 +1,5 @@
 \* C29 quick: 2 channels, 3 items, 1 key + keyless, 2 payloads, <=1 injected failure, 1-2 batches in flight.
-\* 18,638 distinct states (38,744 generated), ~10 s idle / 25-70 s on the loaded box, 8 workers.
+\* 18,638 distinct states (38,744 generated), ~10 s idle / 25-70 s on the loaded box, 8 workers (MaxCancel = 1 here: 55,249 distinct, 5 min loaded; item contexts have their own config MC_cancel.cfg).
 SPECIFICATION Spec
 CONSTANTS
   NChans = 2
@@ -9,6 +9,7 @@ CONSTANTS
   MaxBatch = 2
   MaxFail = 1
   MaxStops = 0
+  MaxCancel = 0
   Inflights = {1, 2}
   Hws = {99}
   Caps = {99}
@@ -17,6 +18,6 @@ CONSTANTS
   Canonical = TRUE
   StrictOrder = FALSE
 VIEW View
-INVARIANTS TypeOK C29_InflightBound C29_Aligned C29_NoSecondMessage C29_RetryOriginal C29_ChangedPayloadNeverSucceeds C29_Order C41_DoneMeansDrained C41_NothingDiscarded
+INVARIANTS TypeOK C29_InflightBound C29_CanceledOnlyIfCancelled C29_Aligned C29_NoSecondMessage C29_RetryOriginal C29_ChangedPayloadNeverSucceeds C29_Order C41_DoneMeansDrained C41_NothingDiscarded
 PROPERTIES C29_ExactlyOne C41_NoAdmitAfterStop C41_TimeoutKeepsWork
 CHECK_DEADLOCK FALSE
